@@ -662,7 +662,7 @@ func UnfoldBooleanAction(unfoldOpts BooleanUnfold) RewriteAction {
 		}
 
 		if option.Default != nil {
-			if val, ok := option.Default.ArgsValues[0].(bool); ok && val {
+			if val, ok := firstDefaultValue(option.Default).(bool); ok && val {
 				newOpts[0].Default = &ast.OptionDefault{}
 			} else {
 				newOpts[1].Default = &ast.OptionDefault{}
@@ -711,4 +711,13 @@ func AddCommentsAction(comments []string) RewriteAction {
 
 		return []ast.Option{option}
 	}
+}
+
+// firstDefaultValue returns the default value of an option's first argument, if any.
+func firstDefaultValue(optionDefault *ast.OptionDefault) any {
+	if optionDefault == nil || len(optionDefault.ArgsValues) == 0 {
+		return nil
+	}
+
+	return optionDefault.ArgsValues[0]
 }
